@@ -497,14 +497,17 @@ func (o *Outcome) deriveIDs(sc *Scenario) {
 
 // drawsID: SendIQ / SendMessage / SendPresence generate an id for this call's
 // stream (an independent restatement of their use of getIDTyp: the last
-// attribute with local name id seen before both an id and a type were found
-// has an empty value, or there is none).
+// unqualified id attribute seen before both an id and a type were found has an
+// empty value, or there is none).
 func drawsID(c *Call) bool {
 	if len(c.Toks) == 0 || c.Toks[0].Kind != "start" {
 		return false
 	}
 	haveID, haveTyp, id := false, false, ""
 	for _, a := range c.Toks[0].Attrs {
+		if a.Name.Space != "" {
+			continue
+		}
 		switch a.Name.Local {
 		case "id":
 			haveID, id = true, a.Value
